@@ -39,6 +39,12 @@ impl Profile for ProxyTwin {
             let e = *rng.pick(&pool);
             codes.push(Code { cid: e.spec.cid.to_string(), flavour: FLAVOUR_PROXY });
             codes1.push(Code { cid: e.spec.cid.to_string(), flavour: 0 });
+            // the same program stored twice: a migration can then move a contract to another code id
+            // while handles typed for the program stay usable
+            if rng.chance(1, 3) {
+                codes.push(Code { cid: e.spec.cid.to_string(), flavour: FLAVOUR_PROXY });
+                codes1.push(Code { cid: e.spec.cid.to_string(), flavour: 0 });
+            }
             // another instantiation of the same generic program likes to be stored next to it
             let base = e.spec.cid.split('@').next().unwrap_or("");
             if let Some(sib) = pool.iter().find(|o| o.spec.cid != e.spec.cid && o.spec.cid.split('@').next() == Some(base)) {
